@@ -68,6 +68,7 @@ def known_match(kf, pid, ob):
     for k in ('engine', 'unit', 'function', 'kind', 'harness'):
         if k in kf and kf[k] != ob.get(k): return False
     if 'clause_contains' in kf and kf['clause_contains'] not in (ob.get('clause') or ''): return False
+    if 'clause_startswith' in kf and not (ob.get('clause') or '').startswith(kf['clause_startswith']): return False
     if 'site_contains' in kf and kf['site_contains'] not in (ob.get('site') or ''): return False
     return True
 
@@ -126,6 +127,10 @@ def classify_diag(d, unit, lines):
     spans = d.get('spans', [])
     prim = next((s for s in spans if s.get('is_primary')), None)
     sec = [s for s in spans if not s.get('is_primary') and s.get('label')]
+    # the span that names the failed clause: labelled 'failed this postcondition' / 'failed precondition' (may be primary)
+    clause_span = next((s for s in spans if s.get('label') and 'failed' in s['label']), None)
+    if clause_span is not None:
+        sec = [clause_span] + [s for s in sec if s is not clause_span]
     lm = unit.linemap
     def org(s):
         if s is None: return None
@@ -142,7 +147,9 @@ def classify_diag(d, unit, lines):
         if s is None: return ''
         if s.get('text'):
             t = s['text'][0]
-            return t['text'][max(0, t['highlight_start'] - 1):max(0, t['highlight_end'] - 1)].strip() if s['line_start'] == s['line_end'] else t['text'].strip()
+            if s['line_start'] == s['line_end']:
+                return t['text'][max(0, t['highlight_start'] - 1):max(0, t['highlight_end'] - 1)].strip()
+            return ' '.join(x['text'].strip() for x in s['text'])[:400]
         return ''
     info = {'message': msg, 'function': fn, 'primary': po, 'secondary': so,
             'primary_text': text_of(prim), 'clause': text_of(sec[0]) if sec else text_of(prim),
@@ -459,8 +466,19 @@ def main():
     obligations = 0; discharged = 0; samples = []; fuc = []; trusted = []; rewrites = []
     bounded = []; smt_ms = 0; kani_s = 0.0
     per_unit = []
+    known_only_fns = []
     for r in uresults:
+        # functions whose only failing clauses are recorded known findings are reported separately, not counted
+        fails_by_fn = {}
+        for c in r.failures:
+            ob0 = {'engine': 'verus', 'unit': r.name, 'function': c['function'], 'kind': c['kind'], 'clause': c['clause'],
+                   'site': origin_str(c['primary'])}
+            fails_by_fn.setdefault(c['function'], []).append(any(known_match(k, pid, ob0) for k in known))
         for f in r.functions:
+            short = f['function'].split('::')[-1]
+            if not f['success'] and short in fails_by_fn and all(fails_by_fn[short]):
+                known_only_fns.append(f"{r.name}::{short}")
+                continue
             obligations += 1
             if f['success']: discharged += 1
         smt_ms += r.smt_ms
@@ -580,6 +598,7 @@ def main():
             'rewrites_applied': rewrites,
             'solver_time_s': {'verus_smt': round(smt_ms / 1000.0, 2), 'kani_wall': round(kani_s, 1)},
             'known_findings_hit': [kf.get('id') for kf, _ in known_hits],
+            'functions_with_known_finding_only': known_only_fns,
             'undecided': undecided[:20],
             'samples': samples[:12],
             'not_covered': props[pid].get('_not_covered', ''),
